@@ -252,3 +252,85 @@ M("C13", "post-build-ignored", F, "                    elif k == \"BUILD\":\n   
 M("C13", "add-step-skips-empty-argument", F, _ADD_STEP, _ADD_STEP.replace("if value is not None:", "if value is not None and value != \"\":"), "C13.R8")
 T("C13", "twin-add-step-none-compared-first", F, _ADD_STEP, _ADD_STEP.replace("if value is not None:", "if not (value is None):"))
 M("C13", "dns-value-replaced", F, "                dns_beacon.set_option(\"get_a\", value)", "                dns_beacon.set_option(\"get_a\", \"get_a\")", "C13.R5")
+
+# ------------------------------------------------------------------------------------------------ wave 2
+# grammar rules whose names never reach the tree (every alternative carries an alias; lark names the node after the alias)
+# are renamed: the rules address a grammar rule by the block-alias path that leads to it / by the un-aliased `steps` and
+# `termination` parts, never by its name
+G = "c2profile.lark"
+_GRAMMAR_RENAMES = [
+    (G, "start: value*\n", "start: toplevel*\n"),
+    (G, "?value: \"set\" OPTION string \";\"", "?toplevel: \"set\" OPTION string \";\""),
+    (G, "\"{\" execute_options* \"}\"", "\"{\" executor_statement* \"}\""),
+    (G, "\nexecute_options: \"CreateThread\" string \";\"", "\nexecutor_statement: \"CreateThread\" string \";\""),
+    (G, "\"{\" beacon_gate_options* \"}\"", "\"{\" gate_api* \"}\""),
+    (G, "\nbeacon_gate_options: \"None\" \";\"", "\ngate_api: \"None\" \";\""),
+    (G, "steps: transform_statement*\n", "steps: transform_op*\n"),
+    (G, "\ntransform_statement: \"append\" string \";\"", "\ntransform_op: \"append\" string \";\""),
+    (G, "termination: termination_statement ~ 1\n", "termination: terminator ~ 1\n"),
+    (G, "\ntermination_statement: \"header\" string \";\"", "\nterminator: \"header\" string \";\""),
+    (G, "\"{\" dns_beacon_options* \"}\"", "\"{\" dns_listener_options* \"}\""),
+    (G, "\ndns_beacon_options: \"set\" \"dns_idle\" string \";\"", "\ndns_listener_options: \"set\" \"dns_idle\" string \";\""),
+]
+T("C13", "twin-grammar-alias-only-rules-renamed", G, "", "", edits=_GRAMMAR_RENAMES)
+M("C13", "grammar-renamed-executor-alias-changed", G, "", "", "C13.R3",
+  edits=_GRAMMAR_RENAMES + [(G, "    | \"NtQueueApcThread-s\" \";\"              -> ntqueueapcthread_s", "    | \"NtQueueApcThread-s\" \";\"              -> ntqueueapcthread_dash_s")])
+M("C13", "grammar-renamed-gate-keyword-changed", G, "", "", "C13.R2",
+  edits=_GRAMMAR_RENAMES + [(G, "    | \"VirtualQuery\" \";\"                    -> virtualquery", "    | \"VirtualQuerry\" \";\"                   -> virtualquery")])
+M("C13", "grammar-renamed-top-level-alias-changed", G, "", "", "C13.R1",
+  edits=_GRAMMAR_RENAMES + [(G, "-> dns_beacon\n", "-> dns_listener\n")])
+M("C13", "grammar-renamed-termination-alias-dropped", G, "", "", "C13.R9",
+  edits=_GRAMMAR_RENAMES + [(G, "    | \"uri-append\" \";\"                      -> uri_append", "    | \"uri-append\" \";\"                      -> uriappend")])
+# a client rule split in two identical rules (one per block) is the same language and the same trees
+T("C13", "twin-grammar-client-rule-per-block", G,
+  "http_post_options: \"set\" \"uri\" string \";\"           -> uri\n    | \"set\" \"verb\" string \";\"                       -> verb\n    | \"client\" \"{\" http_get_client_options* \"}\"     -> client\n",
+  "http_post_options: \"set\" \"uri\" string \";\"           -> uri\n    | \"set\" \"verb\" string \";\"                       -> verb\n    | \"client\" \"{\" http_post_client_options* \"}\"    -> client\n",
+  edits=[(G, "http_post_options: \"set\" \"uri\" string \";\"           -> uri\n    | \"set\" \"verb\" string \";\"                       -> verb\n    | \"client\" \"{\" http_get_client_options* \"}\"     -> client\n",
+          "http_post_client_options: \"header\" string string \";\" -> header\n    | \"set\" \"verb\" string \";\"                       -> verb\n"
+          "    | \"metadata\" \"{\" data_transform* \"}\"            -> metadata\n    | \"id\" \"{\" data_transform*  \"}\"                 -> id\n"
+          "    | \"parameter\" string string \";\"                 -> parameter\n    | \"output\" \"{\"  data_transform*  \"}\"            -> output\n\n"
+          "http_post_options: \"set\" \"uri\" string \";\"           -> uri\n    | \"set\" \"verb\" string \";\"                       -> verb\n    | \"client\" \"{\" http_post_client_options* \"}\"    -> client\n")])
+
+# R4, lemma E3: a decoding followed by a character-wise mapping with a constant table of the code is judged by what the table
+# does to the backslash (integer key 92); other tables / functions of the argument are undecided
+_LOGGER = "logger = logging.getLogger(__name__)\n"
+
+
+def _translate(table_src):
+    return [(F, _LOGGER, _LOGGER + table_src),
+            (F, _POST_TAIL, "                        v = v.decode(\"latin-1\").translate(_ESCAPES)\n                        block_steps[_build].append((k.lower(), v))\n")]
+
+
+T("C13", "twin-post-args-translate-table", F, "", "", edits=_translate(
+    "_ESCAPES = {c: \"\\\\x%02x\" % c for c in range(256) if c < 32 or c > 126}\n_ESCAPES[ord(\"\\\\\")] = \"\\\\\\\\\"\n"))
+T("C13", "twin-post-args-translate-table-filled-by-loop", F, "", "", edits=_translate(
+    "_ESCAPES = {}\nfor _code in list(range(32)) + list(range(127, 256)) + [0x5C]:\n    _ESCAPES[_code] = \"\\\\x%02x\" % _code\n"))
+M("C13", "post-args-translate-table-without-backslash", F, "", "", "C13.R4", edits=_translate(
+    "_ESCAPES = {c: \"\\\\x%02x\" % c for c in range(256) if c < 32 or c > 126}\n"))
+M("C13", "post-args-translate-table-backslash-update-by-character", F, "", "", "C13.R4", edits=_translate(
+    "_ESCAPES = {c: \"\\\\x%02x\" % c for c in range(256) if c < 32 or c > 126}\n_ESCAPES.update({\"\\\\\": \"\\\\\\\\\"})\n"))
+M("C13", "x86-arguments-decoded-quotes-escaped-only", F, _X86_LOOP, _X86_LOOP.replace("v = repr(v)[2:-1]", "v = v.decode(\"latin-1\").replace('\"', '\\\\\"')"), "C13.R4")
+M("C13", "tcp-frame-header-decoded", F, "profile.set_option(\"tcp_frame_header\", repr(value)[2:-1])", "profile.set_option(\"tcp_frame_header\", value.decode(\"latin-1\"))", "C13.R4")
+T("C13", "twin-smb-frame-header-raw-bytes", F, "profile.set_option(\"smb_frame_header\", repr(value)[2:-1])", "profile.set_option(\"smb_frame_header\", value)")
+
+# R10: the content-less case of every sequence-valued setting
+_RECOVER_TAIL = "        if c2_recover:\n            http_get.set_non_empty_config_block(\"server\", HttpOptionsBlock(output=DataTransformBlock(steps=c2_recover)))\n"
+M("C13", "recover-server-block-unguarded", F, _RECOVER_TAIL,
+  "        http_get.set_non_empty_config_block(\"server\", HttpOptionsBlock(output=DataTransformBlock(steps=c2_recover)))\n", "C13.R10")
+T("C13", "twin-recover-server-guard-by-length", F, _RECOVER_TAIL,
+  "        if len(c2_recover) > 0:\n            http_get.set_non_empty_config_block(\"server\", HttpOptionsBlock(output=DataTransformBlock(steps=c2_recover)))\n")
+T("C13", "twin-recover-server-block-filled-in-loop", F, "", "", edits=[
+    (F, "        # http_get_server = HttpOptionsBlock()\n", "        http_get_server = HttpOptionsBlock()\n"),
+    (F, "                        c2_recover.append((k, v))\n",
+     "                        c2_recover.append((k, v))\n                if c2_recover:\n                    http_get_server.set_config_block(\"output\", DataTransformBlock(steps=c2_recover))\n"),
+    (F, _RECOVER_TAIL, "        http_get.set_non_empty_config_block(\"server\", http_get_server)\n")])
+M("C13", "post-client-blocks-by-fixed-names", F,
+  "                for block, steps in block_steps.items():\n" + _POST_ATTACH,
+  "                for block in (\"id\", \"output\"):\n                    http_post_client.set_config_block(block, DataTransformBlock(steps=block_steps[block]))\n", "C13.R10")
+M("C13", "x64-transform-attached-when-empty", F, "                if prepend or append:\n" + _X64_ATTACH, _X64_ATTACH.replace("                    proc_inj", "                proc_inj"), "C13.R10")
+M("C13", "execute-list-empty-raises", F, "                if value:\n                    proc_inj.set_config_block(\"execute\", exec_options)\n",
+  "                if not value:\n                    raise ValueError(\"empty execute list\")\n                proc_inj.set_config_block(\"execute\", exec_options)\n", "C13.R10")
+_EXEC_GUARD = "                if value:\n                    proc_inj.set_config_block(\"execute\", exec_options)\n"
+T("C13", "twin-execute-guard-by-length", F, _EXEC_GUARD, "                if len(value) > 0:\n                    proc_inj.set_config_block(\"execute\", exec_options)\n")
+T("C13", "twin-execute-guard-not-the-empty-list", F, _EXEC_GUARD, "                if value != [] and len(value) >= 1:\n                    proc_inj.set_config_block(\"execute\", exec_options)\n")
+M("C13", "execute-guard-length-always-true", F, _EXEC_GUARD, "                if len(value) >= 0:\n                    proc_inj.set_config_block(\"execute\", exec_options)\n", "C13.R10")
